@@ -210,6 +210,7 @@ pub const VALUE_EXPRS: &[&str] = &[
     "continue", "let a = 1", "a = 1", "a += 1", "x.await", "#[a] 1", "(1)", "((1))", "1, 2", "1;",
     "{ let a = 1; a }", "X { a: { 1 } + 2 }", "if let Some(a) = b { a } else { c }",
     "[1; N]", "<T as Tr>::f()", "T::default()", "T::C", "<T>::C", "Vec::<T>::new()", "vec![T::default()]",
+    "::a::b", "a::<T>::b", "<T>::default()", "(_)", "__ng(_)", "__ng(1)", "1,", "_,", "-1i8", "-1.0", "- 1", "!0", "*&1",
     "1u8", "1_000", "0x1f", "0b1", "1e3", "1.", "1f32", "-1.5e-3", "1usize", "340282366920938463463374607431768211455",
     "r\"raw\"", "r#\"ra\"w\"#", "b'x'", "br\"x\"", "c\"x\"", "'\\n'", "\"\\u{e9}\\n\\\"\"", "\"\"", "'\u{e9}'",
     "\u{e9}", "\u{540d}::\u{524d}", "r#type", "r#type::r#match", "'a: loop {}", "&'static str", "<'a>",
